@@ -182,7 +182,19 @@ def run_sequence(case, *, payload_fn=None, target=None):
                     ro.open_after = set(world.open)
                     results.append(ro)
                 elif op == "close":
-                    await protocol.close()
+                    ro = ReqObs()
+                    ro.step = state["pos"] - 1
+                    ro.t0 = loop.vtime
+                    ro.exc = ro.result = ro.hang = None
+                    ro.kind = "closed"
+                    try:
+                        await protocol.close()
+                    except Exception as ex:
+                        ro.exc, ro.kind = ex, "close-raised:" + type(ex).__name__
+                    ro.t_end = loop.vtime
+                    ro.tx, ro.connects = [], []
+                    ro.open_after = set(world.open)
+                    results.append(ro)
                 elif op == "sleep":
                     await asyncio.sleep(secs(st["ticks"], T))
                 elif op == "idle":
@@ -216,3 +228,78 @@ def run_sequence(case, *, payload_fn=None, target=None):
         now = loop.vtime
         loop.shutdown()
     return results, world, errors, protocol
+
+
+# ---------------------------------------------------------------------------------------------
+# incremental session (used by the stateful machines)
+# ---------------------------------------------------------------------------------------------
+class Session:
+    """One protocol object, one peer/world, a current virtual loop; steps are executed one at a time."""
+
+    def __init__(self, transport, T, R, keep, latency=0, payload_fn=None):
+        self.transport, self.T, self.R, self.keep = transport, T, R, keep
+        self.responder = make_responder(transport, payload_fn)
+        self.peer = ScriptedPeer(self.responder, [], default=("drop",))
+        self.world = World(self.peer, connect_latency=latency)
+        self.protocol = make_protocol(transport, T, R, keep)
+        self.loop = VLoop(self.world, max_time=1e5)
+        self.errors = []
+        self.steps = []
+        self.broken = None
+
+    def _run(self, coro):
+        out = self.loop.run(coro)
+        if out.hang is not None:
+            self.broken = out.hang
+        return out
+
+    def request(self, script, connect=(), command=None, default=("drop",)):
+        import asyncio
+        self.steps.append({"op": "request", "script": script, "connect": list(connect), "default": list(default)})
+        self.peer.set_script(to_actions(script, self.T), default=tuple(default))
+        self.world.connect_script = list(connect)
+        ro = ReqObs()
+        ro.step = len(self.steps) - 1
+        i0, c0 = len(self.world.tx), len(self.world.connect_attempts)
+        ro.t0 = self.loop.vtime
+        cmd = make_command(self.transport, self.protocol, command)
+        out = self._run(cmd.execute(self.protocol))
+        ro.exc, ro.result, ro.hang = out.exc, out.result, out.hang
+        ro.kind = out.kind()
+        ro.t_end = self.loop.vtime
+        ro.tx = [tuple(e) for e in self.world.tx[i0:]]
+        ro.connects = list(self.world.connect_attempts[c0:])
+        ro.open_after = set(self.world.open)
+        return ro
+
+    def close(self):
+        self.steps.append({"op": "close"})
+        out = self._run(self.protocol.close())
+        return out, set(self.world.open)
+
+    def idle(self):
+        self.steps.append({"op": "idle"})
+        self.loop.idle()
+
+    def sleep(self, ticks):
+        import asyncio
+        self.steps.append({"op": "sleep", "ticks": ticks})
+        self._run(asyncio.sleep(secs(ticks, self.T)))
+
+    def new_loop(self):
+        self.steps.append({"op": "newloop"})
+        self.errors.extend(self.loop.errors)
+        now = self.loop.vtime
+        self.loop.shutdown()
+        self.loop = VLoop(self.world, start=now, max_time=now + 1e5)
+
+    def finish(self):
+        if not self.loop.is_closed():
+            self.loop.idle()
+            self.errors.extend(self.loop.errors)
+            self.loop.shutdown()
+        return self.errors
+
+    def case(self):
+        return {"transport": self.transport, "T": self.T, "R": self.R, "keep": self.keep,
+                "latency": self.world.connect_latency, "steps": list(self.steps)}
